@@ -146,6 +146,11 @@ func RandISet(rng *rand.Rand, minShift, depth int) ISet {
 		}
 		return x.Start < y.Start
 	})
+	if rng.Intn(30) == 0 {
+		// a file of unplaced records only: an index without references
+		s.Recs = nil
+		s.Recs = append(s.Recs, IRec{Ref: -1, Start: -1, End: 0, Size: 50})
+	}
 	for k := rng.Intn(4); k > 0; k-- {
 		s.Recs = append(s.Recs, IRec{Ref: -1, Start: -1, End: 0, Size: 30 + rng.Intn(100)})
 	}
